@@ -110,6 +110,8 @@ func (p *C07) Gen(seed uint64, i int, tier string) *scen.Scenario {
 	}
 	format := scen.Pick(r, []string{"json", "color", "logfmt"})
 	depth := r.Range(1, 4)
+	var sharedArgs []scen.Arg
+	var sharedOn []int
 	for d := 1; d <= depth; d++ {
 		var op scen.Op
 		if d == 1 {
@@ -132,14 +134,33 @@ func (p *C07) Gen(seed uint64, i int, tier string) *scen.Scenario {
 			if r.Bool() {
 				op.Args = []scen.Arg{{K: "newattrs", Items: op.Args}}
 			}
+		} else if sharedArgs != nil && r.Chance(1, 2) {
+			// the same caller-owned Attrs value as another logger got (it has spare capacity)
+			op.Opts = append(op.Opts, scen.Op{Kind: "attrs1", J: 1, Args: sharedArgs})
+			sharedOn = append(sharedOn, d)
 		} else if !r.Chance(1, 3) {
 			kind := scen.Pick(r, []string{"attrs", "args", "attrs1"})
+			if kind == "attrs1" && sharedArgs == nil && r.Chance(1, 2) {
+				sharedArgs = []scen.Arg{g.scalar(g.key())}
+				op.Opts = append(op.Opts, scen.Op{Kind: "attrs1", J: 1, Args: sharedArgs})
+				sharedOn = append(sharedOn, d)
+				sc.Setup = append(sc.Setup, op)
+				continue
+			}
 			o := scen.Op{Kind: kind}
 			if kind == "args" {
 				o.Args = g.list(r.Range(1, 5), r.Chance(1, 4))
 			} else {
-				for k := r.Range(1, 4); k > 0; k-- {
-					o.Args = append(o.Args, g.scalar(g.key()))
+				na := r.Range(1, 4)
+				if r.Chance(1, 20) {
+					na = scen.Pick(r, []int{120, 135, 300}) // more own attributes than the pooled per-call slice holds at first
+				}
+				for k := na; k > 0; k-- {
+					kk := g.key()
+					if na > 10 {
+						kk = fmt.Sprintf("w%d", k) // wide lists need their own key space
+					}
+					o.Args = append(o.Args, g.scalar(kk))
 				}
 			}
 			op.Opts = append(op.Opts, o)
@@ -163,6 +184,18 @@ func (p *C07) Gen(seed uint64, i int, tier string) *scen.Scenario {
 				o.Keys = append(o.Keys, scen.CtxKey{Kind: scen.Pick(r, []string{"s", "s", "st", "o"}), Name: g.key()})
 			}
 			sc.Setup = append(sc.Setup, o)
+		}
+	}
+	// every logger holding the shared list gets one more attribute of its own afterwards
+	if len(sharedOn) >= 2 {
+		for _, d := range sharedOn {
+			sc.Setup = append(sc.Setup, scen.Op{Op: "set", L: d, Kind: scen.Pick(r, []string{"attrs", "args"}), Args: nil})
+			last := &sc.Setup[len(sc.Setup)-1]
+			if last.Kind == "args" {
+				last.Args = []scen.Arg{{K: "key", S: g.key()}, {K: "i", I: g.nextVal()}}
+			} else {
+				last.Args = []scen.Arg{g.scalar(g.key())}
+			}
 		}
 	}
 	inherit := false
@@ -216,12 +249,20 @@ func (p *C07) Gen(seed uint64, i int, tier string) *scen.Scenario {
 // WellFormed: the invariants of the generator that the oracle relies on.
 func (p *C07) WellFormed(sc *scen.Scenario) bool {
 	seen := map[int64]bool{}
+	sharedSeen := map[int64]bool{}
 	for i := range sc.Setup {
 		op := &sc.Setup[i]
 		if !attrsWellFormed(op.Args, seen) {
 			return false
 		}
 		for k := range op.Opts {
+			if o := &op.Opts[k]; o.Kind == "attrs1" && o.J > 0 {
+				// one caller-owned list given to several loggers: its values are counted once
+				if sharedSeen[o.J] {
+					continue
+				}
+				sharedSeen[o.J] = true
+			}
 			if !attrsWellFormed(op.Opts[k].Args, seen) {
 				return false
 			}
